@@ -1,16 +1,17 @@
 ---------------------------- MODULE TraceLib ----------------------------
 (* Shared conventions of all *_Trace modules (DESIGN.md 3.2, 3.5).
    Trace: ndjson file "trace.ndjson" next to the module; l: next line to consume.
-   Monitor acceptance: every line is consumed; a failing clause prints <<"BAD", l, clause, detail>>
+   Monitor acceptance: every line is consumed; a failing clause prints the string BAD{"l":..,"clause":..,"detail":..} (one line)
    and is counted in TLC register 1; the post-condition requires the count to be 0. *)
 EXTENDS Integers, Sequences, TLC, Json
 Trace == ndJsonDeserialize("trace.ndjson")
 \* NB: must be IF/THEN/ELSE - written as a disjunction TLC evaluates both sides (DESIGN A.1)
 ClauseAt(l, name, ok, detail) ==
-   IF ok THEN TRUE ELSE PrintT(<<"BAD", l, name, detail>>) /\ TLCSet(1, TLCGet(1) + 1)
+   IF ok THEN TRUE
+   ELSE PrintT("BAD" \o ToJson([l |-> l, clause |-> name, detail |-> detail])) /\ TLCSet(1, TLCGet(1) + 1)
 MonitorInit == TLCSet(1, 0)
 Has(r, f) == f \in DOMAIN r
 Get(r, f, default) == IF f \in DOMAIN r THEN r[f] ELSE default
-Consumed(n) == PrintT(<<"CONSUMED", n>>)
+Consumed(n) == PrintT("CONSUMED" \o ToJson([n |-> n, bad |-> TLCGet(1)]))
 NoBad == TLCGet(1) = 0
 =============================================================================
